@@ -9,6 +9,8 @@ func init() {
 		"which sampled measurement becomes the exemplar is the SDK reservoir's choice: asserted is that an exposed exemplar is the faithful record of one sampled measurement of that series (right bucket); whether an exemplar is exposed at all is not asserted (the statement does not mention exemplars beyond faithful series)",
 		"an exporter that is not (yet) registered with a MeterProvider may expose a label-less target_info; anything else it exposes is a violation",
 		"a scope attribute whose key only SANITISES to otel_scope_name / otel_scope_version (legacy scheme) is merged with the real value by the general collision rule; the otel_scope_info series is expected with that merged value, the data points with the real one",
+		"instruments of different scopes that share an exported family: values are not asserted (the winner depends on the SDK's scope order); the registry must accept every scrape when the scope labels are on and the scopes differ in (name, version); clashes inside one scope / without scope labels / with an ambiguous View are 'no panic' only",
+		"the race window of concurrent FIRST scrapes is sampled (2..8 scrapers x 2..6 fresh exporters per concurrent case), not enumerated",
 		"concurrent scrapes are checked for crash/race freedom, legal names, cumulative shape and monotone counters; exact values only at quiescence; schedules are sampled, not enumerated",
 	))
 }
